@@ -1287,32 +1287,44 @@ def add_invariant_checks(cls: ClassT) -> None:
                 )
             )
 
+    # NOTE: We must not set the members which need no new wrapper (*i.e.*, the inherited members which are already
+    # decorated with the invariant checks). Otherwise, we would copy the member of a base class into the class
+    # and thus change what a sub-class with multiple bases resolves following its method resolution order.
     if init_func:
         # We have to distinguish this special case which is used by named
         # tuples and possibly other optimized data structures.
         # In those cases, we have to wrap __new__ instead of __init__.
         if init_func == object.__init__ and hasattr(cls, "__new__"):
             new_func = getattr(cls, "__new__")
-            setattr(cls, "__new__", _decorate_new_with_invariants(new_func))
+            new_wrapper = _decorate_new_with_invariants(new_func)
+            if new_wrapper is not new_func:
+                setattr(cls, "__new__", new_wrapper)
         else:
             wrapper = _decorate_with_invariants(func=init_func, is_init=True)
-            setattr(cls, init_func.__name__, wrapper)
+            if wrapper is not init_func:
+                setattr(cls, init_func.__name__, wrapper)
 
     for name, func in names_funcs:
         wrapper = _decorate_with_invariants(func=func, is_init=False)
-        setattr(cls, name, wrapper)
+        if wrapper is not func:
+            setattr(cls, name, wrapper)
 
     for name, prop in names_properties:
-        new_prop = property(
-            fget=_decorate_with_invariants(func=prop.fget, is_init=False)
+        fget = (
+            _decorate_with_invariants(func=prop.fget, is_init=False)
             if prop.fget
-            else None,
-            fset=_decorate_with_invariants(func=prop.fset, is_init=False)
-            if prop.fset
-            else None,
-            fdel=_decorate_with_invariants(func=prop.fdel, is_init=False)
-            if prop.fdel
-            else None,
-            doc=prop.__doc__,
+            else None
         )
-        setattr(cls, name, new_prop)
+        fset = (
+            _decorate_with_invariants(func=prop.fset, is_init=False)
+            if prop.fset
+            else None
+        )
+        fdel = (
+            _decorate_with_invariants(func=prop.fdel, is_init=False)
+            if prop.fdel
+            else None
+        )
+        if fget is not prop.fget or fset is not prop.fset or fdel is not prop.fdel:
+            new_prop = property(fget=fget, fset=fset, fdel=fdel, doc=prop.__doc__)
+            setattr(cls, name, new_prop)
